@@ -28,6 +28,11 @@ DEV_B = {
 }
 
 
+# DEV_A with an ophyd-async style motor: stop() is a coroutine that really suspends (the engine's clean-up awaits it)
+DEV_N = copy.deepcopy(DEV_A)
+DEV_N["motors"]["m1"]["async_stop"] = True
+
+
 def point(dets=("d1",), motor=None, value=None, stream="primary", run=None, group="g"):
     """checkpoint; [set motor; wait]; trigger dets; wait; create; read...; save"""
     nodes = [M("checkpoint")]
@@ -253,8 +258,8 @@ CORPUS = {
     "custom_ck": (_custom_ck(), DEV_A, 0),
     "nested_keys": (_nested_keys(), DEV_A, 0),
     "try_finally": (_try_finally(), DEV_SYNC, 0),
-    "nonresumable": (_nonresumable(), DEV_A, 0),
-    "nonresumable_toggles": (_nonresumable_toggles(), DEV_A, 0),
+    "nonresumable": (_nonresumable(), DEV_N, 0),
+    "nonresumable_toggles": (_nonresumable_toggles(), DEV_N, 0),
     "nonrewindable_region": (_nonrewindable_region(), DEV_A, 0),
     "engine_closes": (_engine_closes(), DEV_A, 0),
     "monitor": (_monitor_plan(), DEV_SYNC, 0),
@@ -263,9 +268,9 @@ CORPUS = {
     "async_stage": (_async_stage(), DEV_B, 0),
     "watch_wait": (_watch_wait(), DEV_A, 0),
     "pause_msg": (_inplan_pause("hard"), DEV_A, 0),
-    "pause_msg_nonresumable": (_inplan_pause("hard_nonresumable"), DEV_A, 0),
+    "pause_msg_nonresumable": (_inplan_pause("hard_nonresumable"), DEV_N, 0),
     "defer_msg": (_inplan_pause("defer"), DEV_A, 0),
-    "defer_msg_nonresumable": (_inplan_pause("defer_nonresumable"), DEV_A, 0),
+    "defer_msg_nonresumable": (_inplan_pause("defer_nonresumable"), DEV_N, 0),
     "grid22": (B("grid_scan", DS("d1"), D("m1"), 0.0, 1.0, 2, D("m2"), 0.0, 1.0, 2, True), DEV_A, 1),
     "rel_scan": (B("rel_scan", DS("d1"), D("m1"), -1.0, 1.0, 3), DEV_A, 1),
     "list_scan": (B("list_scan", DS("d2"), D("m1"), [0.0, 0.5, 2.0], D("m2"), [1.0, 1.5, 0.0]), DEV_A, 1),
